@@ -7,7 +7,8 @@ Spec: spec/Layout.tla (the representation rule: C layout of enums with a u8 tag,
       spec/TraceLayout.tla, spec/TraceBoundary.tla.
 S->I: TLC enumerates the configuration space (route x types x position x value class): every boundary type of
       the depth <= 1 grammar (thorough: restricted depth 2) on the routes id / hecho (host function) / hmeth
-      (method) / hgive / const / build (constructors) / buildf (accept, reject) / match; seven-parameter
+      (method) / hgive / const / build (constructors, list literals) / buildf (accept, reject) / match / index
+      (`l.get(i)` on a list Rust built; lists of enums whose size hinges on the final rounding); seven-parameter
       vectors with the type under test at every position 1..7 and with 2..6 slot-occupying parameters (Rust ->
       script `pick`, script -> host function `hpick`, zero-sized parameters at every position); context
       structs in every declared field order.  For every type and value TLC also checks the layout invariants
@@ -30,9 +31,9 @@ from vlib import Evidence, Verdicts, run_tlc, require_tlc_ok
 
 PID = "C05"
 PARTS = ["types", "pick", "hpick", "ctx", "layout"]
-ROUTES = ["id", "hecho", "hmeth", "hgive", "const", "ctx", "build", "buildf", "match", "pick", "hpick"]
+ROUTES = ["id", "hecho", "hmeth", "hgive", "const", "ctx", "build", "buildf", "match", "index", "pick", "hpick"]
 CROSSINGS = ["rust_arg", "rust_ret", "host_arg", "host_ret", "ctx", "const"]
-SCRIPT_OPS = ["construct", "match", "select"]
+SCRIPT_OPS = ["construct", "match", "select", "index"]
 LEAVES = ["bool", "u8", "u16", "u32", "u64", "i8", "i16", "i32", "i64", "f32", "f64", "char", "Asn", "IpAddr", "Prefix",
           "String", "()", "Z0", "C1", "T24"]
 CTORS = ["Option", "List", "Result", "Verdict"]
@@ -63,6 +64,8 @@ def item_of(c):
         return {"route": r, "vals": c["vals"]}
     if r == "ctx":
         return {"route": r, "vals": c["vals"], "pos": c["pos"]}
+    if r == "index":
+        return {"route": r, "val": c["vals"][0], "k": c["k"]}
     return {"route": r, "val": c["vals"][0]}
 
 
@@ -384,7 +387,10 @@ def random_configs(rng, n):
             t = e["term"]
             routes = (["id", "hecho", "hgive", "const"] + ([] if len(t) == 1 else ["build", "match"]) +
                       (["hmeth"] if len(t) == 1 and t != ["()"] else []) + (["buildf"] if t[0] == "Verdict" else []))
-            c = {"route": rng.choice(routes), "vec": [t], "vals": [gen_value(rng, t)], "pos": 1, "k": 1}
+            if t[0] == "List":
+                routes.append("index")
+            r = rng.choice(routes)
+            c = {"route": r, "vec": [t], "vals": [gen_value(rng, t)], "pos": 1, "k": rng.randrange(1, 4) if r == "index" else 1}
         elif x < 0.85:
             e = tab[rng.choice(vecs)]
             vec = e["term"]["vec"]
@@ -499,7 +505,10 @@ def run(tier):
     ev.extra["context_field_types_not_supported"] = stats.get("context_field_types_not_supported")
     ev.assumptions = [
         "types: 20 leaves (13 scalars, String, IpAddr, Prefix, (), three registered Val types of 0 / 1 / 24 bytes); every Option / "
-        "List of a leaf; Result / Verdict of a leaf and one of {u8,u16,u32,u64,(),Z0,T24} in either order (522 types); thorough: "
+        "List of a leaf; Result / Verdict of a leaf and one of {u8,u16,u32,u64,(),Z0,T24} in either order (522 types); element-stride "
+        "types: Option[IpAddr] and Result / Verdict of IpAddr with one of {u32,u64,String,T24} in either order (the enums whose size "
+        "is decided by the final rounding of the union, and their controls), each alone and as the element type of a list built by "
+        "the script / indexed by the script (543 types in quick); thorough: "
         "plus depth 2 over {u8,T24} (a binary constructor with at most one non-leaf argument) and 8 hand-picked nestings (650)",
         "argument positions: seven-parameter vectors (an all-integer base and a mixed base) with the type under test (20 leaves + 9 "
         "compound types) at every position; other arities only as the one-parameter routes",
